@@ -32,6 +32,8 @@ pub struct FlowCase {
     pub embedder_rate: u64,
     /// Downtime before a restart (run_case_restart): both clocks advance by this much.
     pub restart_gap_ns: i128,
+    /// Drop every control handle after this many scheduling rounds (an embedder that never asks for checks).
+    pub drop_handles_after: Option<u64>,
 }
 
 impl FlowCase {
@@ -52,6 +54,7 @@ impl FlowCase {
             start_wall_ns: None,
             embedder_rate: 0,
             restart_gap_ns: 0,
+            drop_handles_after: None,
         }
     }
     pub fn shape_key(&self) -> u64 {
@@ -97,6 +100,7 @@ pub fn run_case(case: &FlowCase, rng: &mut Rng) -> CaseRun {
     let mut d = Driver::new(&w, &case.setup);
     d.max_steps = case.max_steps;
     d.embedder_rate = case.embedder_rate;
+    d.drop_handles_after = case.drop_handles_after;
     let stop_idle = case.stop_idle;
     let end = d.run(case.sched, rng, |d| d.count_state(&StateSnap::Idle) >= stop_idle);
     finish_run(case, w, d, end)
@@ -128,6 +132,18 @@ pub fn finish_run_multi(case: &FlowCase, setups: &[Setup], w: W, d: Driver, end:
 /// Transfer a monitor's findings into the shard report, attaching the replay descriptor and
 /// the tail of the log as the witness.
 pub fn absorb(r: &mut Report, args: &Args, case_idx: u64, m: Mon, w: &W, extra: Value) {
+    let mut m = m;
+    {
+        // whatever the property: the machine and an embedder task that takes the shared locks in the library's
+        // own order (storage, then app set) must never end up waiting for each other
+        let g = lock(w);
+        if let Some(b) = g.log.iter().find(|x| matches!(x.ev, Ev::ObserverBlocked { on: "deadlock-with-embedder" })) {
+            let seq = b.seq;
+            m.judge("flow-completes-with-embedder-task", false, "", || format!("machine and embedder task wait for each other's lock with nothing else pending (seq {})", seq));
+        } else if g.log.iter().any(|x| matches!(x.ev, Ev::EmbedderTouched)) {
+            m.hit("flow-completes-with-embedder-task");
+        }
+    }
     for (k, v) in m.hits {
         r.hits(&k, v);
     }
